@@ -54,7 +54,7 @@ Proof. vm_compute. reflexivity. Qed.
    after the last write of the fetched fields, is not made conditional when that write is
    unconditional, and a handler that writes them notifies at all (C20_notify_after_state;
    Allocator.countersChangedCallback / poolToCounters, layer2Controller.onStatusChange /
-   Announce.ips; order only for bgpController.adsChangedCallback / activeAds, which is invoked per
+   Announce.ips; order only for bgpController.adsChangedCallback / the guarded field PeersForService reads (activeAds), which is invoked per
    changed service from a loop) *)
 Theorem repo_notify_after_state : notify_after_state nfuncs nentries notifiers = true.
 Proof. vm_compute. reflexivity. Qed.
